@@ -34,14 +34,14 @@ type udpRelay struct {
 	got, seen atomic.Int64 // datagrams taken off the socket / completely handled
 }
 
-var curRelay *udpRelay
+var curRelay atomic.Pointer[udpRelay]
 
 // udpSettle waits until the relay has handled every datagram the library has transmitted so far. (A call can return
 // while its last transmission is still in the relay's socket queue — when the reply it accepted was already queued on
 // its own socket; what was transmitted is only complete once the relay has seen it. On loopback a datagram is in the
 // receiver's queue when the sender's write returns.)
 func udpSettle() {
-	r := curRelay
+	r := curRelay.Load()
 	if r == nil {
 		return
 	}
@@ -79,7 +79,7 @@ func newTransport(send bmc.VerifSendFunc, timeout time.Duration) (*bmc.V2Session
 		panic("udp relay: " + err.Error())
 	}
 	r := &udpRelay{conn: c, done: make(chan struct{})}
-	curRelay = r
+	curRelay.Store(r)
 	go func() {
 		buf := make([]byte, 4096)
 		for {
